@@ -9,8 +9,11 @@ Record dapprox := DA { da_lo : Z; da_hi : Z; da_se : bool; da_ee : bool }.
 Definition da_exact (a : dapprox) : bool := da_lo a =? da_hi a.
 Definition da_zero : dapprox := DA 0 0 false false.
 
-(* the traversal loop after the first domain *)
-Fixpoint dist_loop (fuel : nat) (P : list dom) (it : diter) (t eff : tr) (cont : bool)
+(* the traversal loop after the first domain.  [legacy = true] is the loop of the pinned
+   upstream tree, which only stopped in a domain CONTAINING the end of the range; /repo
+   (after the fix) also stops in a domain that ends exactly there, as the first domain
+   always did. *)
+Fixpoint dist_loop (legacy : bool) (fuel : nat) (P : list dom) (it : diter) (t eff : tr) (cont : bool)
          (s2f : approx) (tot : Z) (se : bool) : res dapprox :=
   match fuel with
   | O => Err EPanic
@@ -19,13 +22,13 @@ Fixpoint dist_loop (fuel : nat) (P : list dom) (it : diter) (t eff : tr) (cont :
       if negb ok || (cont && negb (contains_range eff (di_tr it'))) then
         if cont then Err EDisc
         else Ok (DA (a_lo s2f + tot) (a_hi s2f + tot) se false)
-      else if contains_stamp (di_tr it') (t_e t) then
+      else if contains_stamp (di_tr it') (t_e t) || (negb legacy && (t_e t =? t_e (di_tr it'))) then
         do e <- isearch (t_e t) (d_data (di_cur it'));
         Ok (DA (a_lo s2f + tot + a_lo e) (a_hi s2f + tot + a_hi e) se (a_exact e))
-      else dist_loop f P it' t eff cont s2f (tot + dlen (di_cur it')) se
+      else dist_loop legacy f P it' t eff cont s2f (tot + dlen (di_cur it')) se
   end.
 
-Definition distance (P : list dom) (t : tr) (cont : bool) : res dapprox :=
+Definition distance_gen (legacy : bool) (P : list dom) (t : tr) (cont : bool) : res dapprox :=
   let '(it, ok) := di_seek_first P (di_open t) in
   if negb ok then Err EDisc else
   let '(it1, eff, _) := fwd_eff P it in
@@ -42,4 +45,8 @@ Definition distance (P : list dom) (t : tr) (cont : bool) : res dapprox :=
   else if cont && negb (contains_stamp eff (t_e t)) && negb (t_e eff =? t_e t) then Err EDisc
   else
     let n := zlen r in
-    dist_loop (S (length P)) P it t eff cont (AP (n - a_hi s) (n - a_lo s)) 0 se.
+    dist_loop legacy (S (length P)) P it t eff cont (AP (n - a_hi s) (n - a_lo s)) 0 se.
+
+(* index.Domain.Distance as /repo carries it *)
+Definition distance (P : list dom) (t : tr) (cont : bool) : res dapprox := distance_gen false P t cont.
+Definition distance_legacy (P : list dom) (t : tr) (cont : bool) : res dapprox := distance_gen true P t cont.
